@@ -29,11 +29,24 @@ var c06Carriers = []string{
 	`<h2><a href="REF"><span>alpha</span></a></h2>`,
 	`<p><a href="REF"><b>alpha</b> <i>beta</i></a></p>`,
 	`<div><span><a href="REF">alpha</a></span></div>`,
+	`<p>alpha beta<a href="REF">*</a> gamma <a href="REF"><img src="REF"></a></p>`,
 }
 
-type c06Counter struct{}
+// c06Counter: an arbitrary word counter (real counters give 0 for texts made
+// of symbols only, so 0 is possible for any text)
+type c06Counter struct{ memo map[string]int }
 
-func (c06Counter) Count(s string) int { return len(strings.Fields(s)) }
+func (c *c06Counter) Count(s string) int {
+	if n, ok := c.memo[s]; ok {
+		return n
+	}
+	n := 0
+	if strings.TrimSpace(s) != "" {
+		n = vx.NondetInt("wc", 0, 40)
+	}
+	c.memo[s] = n
+	return n
+}
 
 func c06Collect(n *html.Node, into *[]string) {
 	if n.Type == html.ElementNode {
@@ -67,7 +80,7 @@ func HarnessC06Output() {
 	pageURL, _ := nurl.Parse([]string{"http://h.t/dir/page.html", "http://h.t/dir/sub/", "https://h.t"}[vx.Choose("pageurl", 3)])
 	want := stringutil.CreateAbsoluteURL(ref, pageURL)
 	doc := vx.ParseHTML("<html><head><title>T</title></head><body><div>" + strings.ReplaceAll(carrier, "REF", ref) + "</div></body></html>")
-	b := webdoc.NewWebDocumentBuilder(c06Counter{}, pageURL)
+	b := webdoc.NewWebDocumentBuilder(&c06Counter{memo: map[string]int{}}, pageURL)
 	converter.NewDomConverter(converter.Default, b, pageURL, nil).Convert(dom.QuerySelector(doc, "html"))
 	wd := b.Build()
 	for _, e := range wd.Elements {
